@@ -145,6 +145,16 @@ L3Overflow(prog, fin) ==
   /\ \E k \in 1 .. N(fin) : IsStoreAt(prog, fin, k)
   /\ Cardinality({fin.ev[k].a \div 128 : k \in {x \in 1 .. N(fin) : fin.ev[x].a >= 0}}) > 32
 
+(* F03d (MVP-6.1 .. 6.3, >= 2 units): a store that textually follows a taken branch or *)
+(* jump can be dispatched in the same cycle; when its line is already in the cache it  *)
+(* is written at once, before the flush.  Masks: a taken control transfer whose next   *)
+(* instruction in the text is a store, when some load was executed before it.          *)
+ShadowStoreHit(prog, fin) ==
+  \E k \in 1 .. N(fin) :
+    /\ fin.ev[k].t
+    /\ fin.ev[k].i + 2 <= Len(prog) /\ prog[fin.ev[k].i + 2].op \in StoreOps
+    /\ \E h \in 1 .. (k - 1) : IsLoadAt(prog, fin, h)
+
 Tags(prog, fin) ==
   (IF RetAfterStoreMiss(prog, fin) THEN {"ret_after_store_miss"} ELSE {})
   \cup (IF RetDropsInflight(prog, fin) THEN {"ret_drops_inflight"} ELSE {})
@@ -157,5 +167,6 @@ Tags(prog, fin) ==
   \cup (IF WarRenamed(prog, fin) THEN {"war_renamed"} ELSE {})
   \cup (IF ShadowOfSlowBranch(prog, fin) THEN {"shadow_of_slow_branch"} ELSE {})
   \cup (IF LaterFlushAfterStoreMiss(prog, fin) THEN {"later_flush_after_store_miss"} ELSE {})
+  \cup (IF ShadowStoreHit(prog, fin) THEN {"shadow_store_hit"} ELSE {})
   \cup (IF N(fin) > 150 /\ L3Overflow(prog, fin) THEN {"l3_overflow_with_stores"} ELSE {})
 =======================================================================
